@@ -90,6 +90,79 @@ fn witness(rng: &mut Rng, b: &ResourceBounds, fresh_base: u64) -> Option<Ids> {
     if g.validate_non_fungible_ids(&idset(&ids)).is_ok() { Some(ids) } else { None }
 }
 
+
+// ---- deterministic boundary families (identical for every seed) ---------------------------------------------
+fn fam_numeric() -> Vec<(String, LowerBound, LowerBound, UpperBound, UpperBound, Decimal)> {
+    let s = scale();
+    let lowers: Vec<(&str, LowerBound)> = vec![("nz", LowerBound::NonZero), ("0", LowerBound::Inclusive(dec(0))), ("1atto", LowerBound::Inclusive(dec(1))), ("1", LowerBound::Inclusive(dec(s))),
+        ("1p", LowerBound::Inclusive(dec(s + 1))), ("2", LowerBound::Inclusive(dec(2 * s))), ("max", LowerBound::Inclusive(Decimal::MAX)), ("neg", LowerBound::Inclusive(dec(-1)))];
+    let uppers: Vec<(&str, UpperBound)> = vec![("unb", UpperBound::Unbounded), ("0", UpperBound::Inclusive(dec(0))), ("1atto", UpperBound::Inclusive(dec(1))), ("1", UpperBound::Inclusive(dec(s))),
+        ("2", UpperBound::Inclusive(dec(2 * s))), ("max", UpperBound::Inclusive(Decimal::MAX)), ("maxm", UpperBound::Inclusive(Decimal::MAX - dec(1)))];
+    let takes: Vec<(&str, Decimal)> = vec![("0", dec(0)), ("1atto", dec(1)), ("1m", dec(s - 1)), ("1", dec(s)), ("1p", dec(s + 1)), ("2", dec(2 * s)), ("max", Decimal::MAX)];
+    let mut v = vec![];
+    for (a, l1) in &lowers { for (b, l2) in &lowers { v.push((format!("num_lower_{}_vs_{}", a, b), *l1, *l2, UpperBound::Inclusive(dec(s)), UpperBound::Unbounded, dec(s))); } }
+    for (a, u1) in &uppers { for (b, u2) in &uppers { v.push((format!("num_upper_{}_vs_{}", a, b), LowerBound::Inclusive(dec(s)), LowerBound::NonZero, *u1, *u2, dec(s))); } }
+    for (a, l1) in &lowers { for (b, t) in &takes { v.push((format!("num_lower_{}_take_{}", a, b), *l1, LowerBound::NonZero, UpperBound::Unbounded, UpperBound::Unbounded, *t)); } }
+    for (a, u1) in &uppers { for (b, t) in &takes { v.push((format!("num_upper_{}_take_{}", a, b), LowerBound::NonZero, LowerBound::NonZero, *u1, UpperBound::Unbounded, *t)); } }
+    v
+}
+fn gc(req: &[u64], lo: LowerBound, hi: UpperBound, allow: Option<&[u64]>) -> GeneralResourceConstraint {
+    GeneralResourceConstraint { required_ids: idset(&req.to_vec()), lower_bound: lo, upper_bound: hi, allowed_ids: match allow { Some(a) => AllowedIds::Allowlist(idset(&a.to_vec())), None => AllowedIds::Any } }
+}
+/// (class, b1, b2, assertion, taken ids, take amount)
+fn fam_ids() -> Vec<(String, GeneralResourceConstraint, GeneralResourceConstraint, GeneralResourceConstraint, Ids, Decimal)> {
+    let s = scale();
+    let li = |k: i128| LowerBound::Inclusive(dec(k * s)); let ui = |k: i128| UpperBound::Inclusive(dec(k * s));
+    let any0 = || gc(&[], li(0), UpperBound::Unbounded, None);
+    let mut v = vec![];
+    let mut add = |c: &str, b1: GeneralResourceConstraint, b2: GeneralResourceConstraint, a: GeneralResourceConstraint, taken: &[u64], t: i128| v.push((format!("ids_{}", c), b1, b2, a, taken.to_vec(), dec(t)));
+    // add
+    add("add_disjoint_allowlists", gc(&[1], li(1), ui(2), Some(&[1, 2])), gc(&[11], li(1), ui(2), Some(&[11, 12])), any0(), &[], 0);
+    add("add_overlapping_allowlists", gc(&[1], li(1), ui(2), Some(&[1, 2, 3])), gc(&[2], li(1), ui(2), Some(&[2, 3, 4])), any0(), &[], 0);
+    add("add_duplicate_required", gc(&[1, 2], li(2), ui(3), None), gc(&[2], li(1), ui(3), None), any0(), &[], 0);
+    add("add_any_plus_allowlist", gc(&[1], li(1), ui(2), None), gc(&[11], li(1), ui(1), Some(&[11])), any0(), &[], 0);
+    add("add_allowlist_plus_any", gc(&[1], li(1), ui(1), Some(&[1])), gc(&[], li(0), ui(2), None), any0(), &[], 0);
+    add("add_unbounded", gc(&[], li(1), UpperBound::Unbounded, None), gc(&[], LowerBound::NonZero, ui(3), None), any0(), &[], 0);
+    add("add_nonzero_plus_zero", gc(&[], LowerBound::NonZero, ui(3), None), gc(&[], li(0), ui(0), None), any0(), &[], 0);
+    add("add_exact_plus_exact", gc(&[1, 2], li(2), ui(2), Some(&[1, 2])), gc(&[11], li(1), ui(1), Some(&[11])), any0(), &[], 0);
+    add("add_overflow_upper", gc(&[], li(0), UpperBound::Inclusive(Decimal::MAX), None), gc(&[], li(0), ui(1), None), any0(), &[], 0);
+    add("add_zero_plus_zero", gc(&[], li(0), ui(0), Some(&[])), gc(&[], li(0), ui(0), Some(&[])), any0(), &[], 0);
+    // take ids from b1
+    let b = || gc(&[1, 2], li(2), ui(4), Some(&[1, 2, 3, 4]));
+    add("take_none", b(), any0(), any0(), &[], 0);
+    add("take_required_one", b(), any0(), any0(), &[1], s);
+    add("take_all_required", b(), any0(), any0(), &[2, 1], 2 * s);
+    add("take_allowed_not_required", b(), any0(), any0(), &[3], s);
+    add("take_all_allowlist", b(), any0(), any0(), &[1, 2, 3, 4], 4 * s);
+    add("take_not_in_allowlist", b(), any0(), any0(), &[9], 4 * s + 1);
+    add("take_more_than_upper", gc(&[], li(0), ui(1), None), any0(), any0(), &[5, 6], 1 * s + 1);
+    add("take_exact_all", gc(&[1, 2], li(2), ui(2), Some(&[1, 2])), any0(), any0(), &[1, 2], 2 * s);
+    add("take_from_exact_one", gc(&[1, 2], li(2), ui(2), Some(&[1, 2])), any0(), any0(), &[2], s);
+    add("take_incomplete_required_remains", gc(&[1], li(1), ui(5), None), any0(), any0(), &[2, 3], 5 * s);
+    add("take_from_any_zero_lower", gc(&[], li(0), ui(3), None), any0(), any0(), &[7], 3 * s);
+    add("take_lower_eq_upper", gc(&[], li(3), ui(3), Some(&[1, 2, 3])), any0(), any0(), &[1], 3 * s);
+    add("take_nonzero_lower", gc(&[], LowerBound::NonZero, ui(3), None), any0(), any0(), &[1], 1);
+    add("take_negative_amount", b(), any0(), any0(), &[1], -1);
+    add("take_fractional_amount", gc(&[], li(0), ui(3), None), any0(), any0(), &[], s / 2);
+    // assertions on b1
+    add("assert_allowlist_equal", b(), any0(), gc(&[], li(0), UpperBound::Unbounded, Some(&[4, 3, 2, 1])), &[], 0);
+    add("assert_allowlist_subset_keeps_required", b(), any0(), gc(&[], li(0), UpperBound::Unbounded, Some(&[1, 2])), &[], 0);
+    add("assert_allowlist_misses_required", b(), any0(), gc(&[], li(0), UpperBound::Unbounded, Some(&[1, 3])), &[], 0);
+    add("assert_allowlist_disjoint", gc(&[], li(0), ui(2), Some(&[3, 5, 2])), any0(), gc(&[], li(0), ui(1), Some(&[0])), &[], 0);
+    add("assert_allowlist_superset", b(), any0(), gc(&[], li(0), UpperBound::Unbounded, Some(&[0, 1, 2, 3, 4, 5])), &[], 0);
+    add("assert_allowlist_on_any", gc(&[1], li(1), ui(3), None), any0(), gc(&[], li(0), UpperBound::Unbounded, Some(&[1, 2])), &[], 0);
+    add("assert_adds_required", b(), any0(), gc(&[3], li(1), UpperBound::Unbounded, None), &[], 0);
+    add("assert_required_outside_own_allowlist", b(), any0(), gc(&[9], li(1), UpperBound::Unbounded, None), &[], 0);
+    add("assert_lower_meets_upper", gc(&[], li(0), ui(3), None), any0(), gc(&[], li(3), UpperBound::Unbounded, None), &[], 0);
+    add("assert_lower_crosses_upper", gc(&[], li(0), ui(3), None), any0(), gc(&[], li(4), UpperBound::Unbounded, None), &[], 0);
+    add("assert_upper_meets_lower", gc(&[], li(2), ui(5), None), any0(), gc(&[], li(0), ui(2), None), &[], 0);
+    add("assert_upper_crosses_lower", gc(&[], li(2), ui(5), None), any0(), gc(&[], li(0), ui(1), None), &[], 0);
+    add("assert_nonzero_on_zero_upper", gc(&[], li(0), ui(0), None), any0(), gc(&[], LowerBound::NonZero, UpperBound::Unbounded, None), &[], 0);
+    add("assert_nonzero_on_zero_lower", gc(&[], li(0), ui(2), None), any0(), gc(&[], LowerBound::NonZero, UpperBound::Unbounded, None), &[], 0);
+    add("assert_identical", b(), any0(), b(), &[], 0);
+    v
+}
+
 fn main() {
     let args = Args::parse();
     let mut report = Report::new("C38", args.seed,
@@ -97,10 +170,13 @@ fn main() {
          every operation run on the implementation (panics caught) and printed for the model; soundness sampled with BigInt. non-trivial = both operands Inclusive");
     let mut cw = CaseWriter::new("RV.Corr.C38_run RV.Model.C37_Constraint RV.Model.C38_Bounds", "check");
     let root = Rng::new(args.seed);
-    for i in 0..args.cases {
+    let (fnum, fids) = (fam_numeric(), fam_ids());
+    let mut fam_classes: Vec<String> = vec![];
+    for i in 0..args.cases.max(fnum.len()) {
         let mut rng = root.fork(i as u64);
-        let (l1, l2, u1, u2) = (gen_lower(&mut rng), gen_lower(&mut rng), gen_upper(&mut rng), gen_upper(&mut rng));
-        let t = if rng.chance(1, 12) { gen_dec(&mut rng) } else { let d = gen_dec(&mut rng); if d.is_negative() { dec(0) } else { d } };
+        let (mut l1, mut l2, mut u1, mut u2) = (gen_lower(&mut rng), gen_lower(&mut rng), gen_upper(&mut rng), gen_upper(&mut rng));
+        let mut t = if rng.chance(1, 12) { gen_dec(&mut rng) } else { let d = gen_dec(&mut rng); if d.is_negative() { dec(0) } else { d } };
+        if let Some((c, a, b, x, y, z)) = fnum.get(i) { l1 = *a; l2 = *b; u1 = *x; u2 = *y; t = *z; report.count(c); fam_classes.push(c.clone()); }
         report.case(&format!("{}{}{}{}{}", lc(&l1), lc(&l2), uc(&u1), uc(&u2), t), matches!((&l1, &l2, &u1, &u2), (LowerBound::Inclusive(_), LowerBound::Inclusive(_), UpperBound::Inclusive(_), UpperBound::Inclusive(_))));
         let ladd = { let mut a = l1; match a.add_from(l2) { Ok(()) => Some(a), Err(_) => None } };
         let uadd = { let mut a = u1; match a.add_from(u2) { Ok(()) => Some(a), Err(_) => None } };
@@ -139,18 +215,22 @@ fn main() {
             lc(&lcon), uc(&ucon)));
     }
     // ---- id-set stream: ResourceBounds::add / take / handle_assertion ----
-    for i in 0..args.cases / 2 {
+    for i in 0..(args.cases / 2).max(fids.len()) {
         let mut rng = root.fork(1_000_000 + i as u64);
+        let fam_i = fids.get(i);
+        if let Some((c, ..)) = fam_i { report.count(c); fam_classes.push(c.clone()); }
         // two universes that overlap a little, so that DuplicateNonFungibleId occurs but is not the norm
         let u1: Vec<u64> = (0..7).collect(); let u2: Vec<u64> = if rng.chance(1, 4) { (4..11).collect() } else { (10..17).collect() };
-        let (g1, g2) = (gen_general(&mut rng, &u1), gen_general(&mut rng, &u2));
-        let ga = gen_general(&mut rng, &u1); // an assertion on the first balance
+        let (mut g1, mut g2) = (gen_general(&mut rng, &u1), gen_general(&mut rng, &u2));
+        let mut ga = gen_general(&mut rng, &u1); // an assertion on the first balance
+        if let Some((_, a, b, c, _, _)) = fam_i { g1 = a.clone(); g2 = b.clone(); ga = c.clone(); }
         let (b1, b2, ba) = match (ResourceBounds::new_for_manifest_constraint(&ManifestResourceConstraint::General(g1.clone())),
                                   ResourceBounds::new_for_manifest_constraint(&ManifestResourceConstraint::General(g2.clone())),
                                   ResourceBounds::new_for_manifest_constraint(&ManifestResourceConstraint::General(ga.clone()))) { (Ok(a), Ok(b), Ok(c)) => (a, b, c), _ => continue };
         let x = witness(&mut rng, &b1, 100);
-        let taken: Ids = match &x { Some(x) if rng.chance(4, 5) => { let mut t = x.clone(); rng.shuffle(&mut t); let n = rng.usize_below(t.len() + 1); t.truncate(n); t } _ => gen_ids(&mut rng, &u1, 3) };
-        let t_amt = if rng.chance(1, 10) { dec(-1) } else { dec(rng.below(4) as i128 * scale()) };
+        let mut taken: Ids = match &x { Some(x) if rng.chance(4, 5) => { let mut t = x.clone(); rng.shuffle(&mut t); let n = rng.usize_below(t.len() + 1); t.truncate(n); t } _ => gen_ids(&mut rng, &u1, 3) };
+        let mut t_amt = if rng.chance(1, 10) { dec(-1) } else { dec(rng.below(4) as i128 * scale()) };
+        if let Some((_, _, _, _, tk, ta)) = fam_i { taken = tk.clone(); t_amt = *ta; }
         let radd = { let (a, b) = (b1.clone(), b2.clone()); catch(move || a.add(b)) };
         let rtake = { let (a, t) = (b1.clone(), idset(&taken)); catch(move || { let mut a = a; a.mut_take(ResourceTakeAmount::NonFungibles(t)).map(|_| a) }) };
         let rtamt = { let a = b1.clone(); catch(move || { let mut a = a; a.mut_take(ResourceTakeAmount::Amount(t_amt)).map(|_| a) }) };
@@ -188,6 +268,7 @@ fn main() {
         }
         cw.push(format!("CIds {} {} {} {} {} {} {} {} {}", bounds_coq(&b1), bounds_coq(&b2), bounds_coq(&ba), ids_coq(&taken), zc(&t_amt), gres_coq(&radd), gres_coq(&rtake), gres_coq(&rtamt), gres_coq(&rass)));
     }
+    for c in &fam_classes { report.floor(c, 1); }
     let n = args.cases as u64;
     report.floor("ids_add_soundness_checked", n / 40);
     report.floor("ids_take_soundness_checked", n / 40);
